@@ -74,4 +74,10 @@ ApplyDecimal(w, b) == IF w \in DOMAIN DecDigits THEN Push(b, DecDigits[w]) ELSE 
 IsDecimalSep(w) == w = "komma"
 DecimalMark == ","
 Annotate(toks) == {}
+
+Vocabulary == DOMAIN Units \cup DOMAIN Teens \cup DOMAIN Tens \cup Patterns \cup
+              {"null", "komma", "erster", "ersten", "erstes", "erstem", "zweiter", "dritten", "siebtes", "zwanzigster", "hundertster", "tausendsten",
+               "einundzwanzig", "zweiundzwanzigste", "dreiundfünfzig", "zweihundert", "einhundert", "hunderteins", "eintausend", "zweitausenddreihundert",
+               "dreihunderttausend", "neunzehnhundertdreiundsiebzig", "einemillion", "zweimillionen", "hundertste", "einundzwanzigste", "einundzwanzigster",
+               "stunden", "kunde", "und", "katzen", "der"}
 =============================================================================
